@@ -21,6 +21,8 @@ CODES = {
     3: ("model", "the resolute outcome differs (as a set) from the Gallina model of the scheme that ran"),
     4: ("model", "the irresolute outcomes differ (as a set of sets) from the Gallina model"),
     5: ("model", "malformed observation"),
+    7: ("oracle", "refuse_tie_breaking: TieBreakingException raised although no round of the greedy definition has two "
+                  "tied best candidates, or an outcome returned although some round has"),
     6: ("oracle", "a repeated identical call on the same (unchanged) objects returned a different outcome"),
     core.RAISED: ("oracle", "the call raised / the interpreter died outside the solver"),
 }
@@ -37,7 +39,9 @@ RULE = ("two streams.  (a) single calls; (b) HISTORIES (a third of the cases): a
         "projects supported, exhaustive initial allocation, all costs zero.  Every call also draws a CALL STYLE: initial "
         "allocation as list / tuple / set / generator expression / iter() / map / filter / BudgetAllocation / None, default vs "
         "explicit lexicographic tie-breaking, sat_class= vs prebuilt sat_profile=, positional vs keyword arguments, "
-        "analytics.  (a) elections with 0..6 voters and 1..7 projects (<=6 when irresolute); all four ballot types x every shipped "
+        "analytics.  About 8 % of the calls use refuse_tie_breaking (judged where the definition and the code agree: must "
+        "raise when the first round has two tied best candidates, must return when nothing lies outside the initial "
+        "allocation).  (a) elections with 0..6 voters and 1..7 projects (<=6 when irresolute); all four ballot types x every shipped "
         "satisfaction measure accepted by the ballot type x Profile/MultiProfile x every shipped tie-breaking rule "
         "accepted x is_sat_additive in {default, forced True, forced False} x resolute/irresolute x feasible initial "
         "allocations; costs from tie-rich pools (zeros, equal costs, halves/thirds), budgets on boundaries; "
@@ -349,6 +353,16 @@ def gen(rng, i, tier):
         j = rng.randrange(len(costs))
         if costs[j] <= pb.F(case["budget"]) and case["stream"] != "exact_tie":
             case["init"] = [j]
+    if case["stream"] not in ("near_tie", "history") and not case["solver"] and rng.random() < 0.11:
+        case["tb"] = "refuse"
+        if case["sat"] in NON_ADDITIVE and case["additive"]:
+            case["additive"] = None                      # the definition is only claimed for the scheme of the measure
+        v = rng.random()
+        if v < 0.25 and case["ballots"]:
+            case["ballots"] = case["ballots"][:1]        # few voters: many equal densities
+        elif v < 0.35:
+            case["init"] = list(range(len(case["costs"]))) if sum(
+                (pb.F(c) for c in case["costs"]), Fraction(0)) <= pb.F(case["budget"]) else case["init"]
     case["style"] = {"init_form": rng.choice(INIT_FORMS), "default_tb": rng.random() < 0.5,
                      "positional": rng.random() < 0.3, "omit_none": rng.random() < 0.5,
                      "analytics": rng.random() < 0.15}
@@ -384,7 +398,8 @@ def _tie(name):
     from pabutools import tiebreaking as T
 
     return {"lexico": T.lexico_tie_breaking, "min_cost": T.min_cost_tie_breaking,
-            "max_cost": T.max_cost_tie_breaking, "app_score": T.app_score_tie_breaking}[name]
+            "max_cost": T.max_cost_tie_breaking, "app_score": T.app_score_tie_breaking,
+            "refuse": T.refuse_tie_breaking}[name]
 
 
 def impl(case):
@@ -400,6 +415,13 @@ def impl(case):
         if case.get("solver"):
             faulthandler.cancel_dump_traceback_later()
 
+
+# refuse_tie_breaking: at HEAD both schemes consult the rule (which raises as soon as it is asked anything) whenever
+# there is a candidate -- the general scheme whenever some project fits, the fast path whenever some project lies
+# outside the initial allocation -- not only when two candidates tie.  Until that is settled the answer is judged
+# only where all readings agree (Oracle.C03.refuse_region): a tie in the very first round (must raise) or no project
+# outside the initial allocation (must not raise).  Set to True to judge "raises iff some round has a tie" everywhere.
+REFUSE_JUDGE_EVERYWHERE = False
 
 INIT_FORMS = ["list", "tuple", "set", "genexpr", "iter", "map", "filter", "budgetallocation", "none_if_empty"]
 
@@ -514,7 +536,17 @@ def _impl(case):
     else:
         prof = pb.make_profile(case["kind"], inst, projs, case["ballots"], case["multi"])
         satp = prof.as_sat_profile(cls)
-    out["out"] = _call(inst, prof, projs, case, cls, satp, case["tb"], case["init"], case["resolute"])
+    if case["tb"] == "refuse":
+        from pabutools.tiebreaking import TieBreakingException
+
+        try:
+            out["out"] = _call(inst, prof, projs, case, cls, satp, case["tb"], case["init"], case["resolute"])
+            out["raised"] = False
+        except TieBreakingException:
+            out["out"] = []
+            out["raised"] = True
+    else:
+        out["out"] = _call(inst, prof, projs, case, cls, satp, case["tb"], case["init"], case["resolute"])
     if hist and hist.get("repeat"):
         out["again"] = _call(inst, prof, projs, case, cls, satp, case["tb"], case["init"], case["resolute"])
     # what the model is fed: the FINAL election, rebuilt from scratch (fresh profile, fresh satisfaction profile)
@@ -523,7 +555,7 @@ def _impl(case):
     ref = ref_prof.as_sat_profile(cls)
     out["tab"] = [core.qj(ref.total_satisfaction([projs2[j] for j in range(n) if (m >> j) & 1])) for m in range(2 ** n)]
     out["sp"] = [core.qj(ref.total_satisfaction_project(p)) for p in projs2]
-    tie = _tie(case["tb"])
+    tie = _tie("lexico" if case["tb"] == "refuse" else case["tb"])     # refuse has no key: never consulted by the spec
     keys = []
     for p in projs2:
         kk = tie.func(inst2, ref_prof, p)
@@ -551,10 +583,13 @@ def post(cases, obs):
 
 
 def coq_case(case, o):
-    return "(mkCase %s %s %s %s %s %s %s %s %s %s)" % (
+    refuse = "None"
+    if case["tb"] == "refuse":
+        refuse = "(Some (%s, %s))" % (boolc(o.get("raised")), boolc(REFUSE_JUDGE_EVERYWHERE))
+    return "(mkCase %s %s %s %s %s %s %s %s %s %s %s)" % (
         core.qlist(case["costs"]), q(case["budget"]), core.qlist(o["tab"]), core.qlist(o["sp"]),
         core.qlist(o["keys"]), natl(case["init"]), boolc(eff_additive(case)), boolc(case["resolute"]),
-        boolc(claim_run(case)), lst([natl(w) for w in o["out"]]))
+        boolc(claim_run(case)), lst([natl(w) for w in o["out"]]), refuse)
 
 
 # ---- python reference of the general scheme: used for the evidence statistics only -------------------------------
@@ -592,10 +627,37 @@ def _trace(case, o):
     return rounds, tied, keytied
 
 
+def _refuse_view(case, o):
+    """(definition says raise, judged at present) for a refuse_tie_breaking case -- statistics only"""
+    costs = [pb.F(c) for c in case["costs"]]
+    B = pb.F(case["budget"])
+    tab = [Fraction(x) for x in o["tab"]]
+    n = len(costs)
+    alloc = list(case["init"])
+    first = True
+    region = all(p in alloc for p in range(n))
+    while True:
+        c = sum((costs[j] for j in alloc), Fraction(0))
+        feas = [p for p in range(n) if p not in alloc and c + costs[p] <= B]
+        if not feas:
+            return False, region
+        m0 = sum(1 << j for j in alloc)
+        dens = {p: ((0, (tab[m0 | (1 << p)] - tab[m0]) / costs[p]) if costs[p] > 0 else (1, Fraction(0))) for p in feas}
+        best = max(dens.values())
+        arg = [p for p in feas if dens[p] == best]
+        if len(arg) >= 2:
+            return True, region or first
+        first = False
+        alloc.append(arg[0])
+
+
 def nontrivial(case, o):
     if not isinstance(o, dict) or "out" not in o:
         return None
     n = len(case["costs"])
+    if case["tb"] == "refuse" and o.get("raised"):
+        return ["refuse", case["kind"], case["costs"], case["budget"], case["ballots"], case["sat"],
+                case["additive"], case["resolute"], case["init"], case["multi"]]
     if any(len(w) > len(case["init"]) and len(w) < n for w in o["out"]):
         return [case["kind"], case["costs"], case["budget"], case["ballots"], case["sat"], case["tb"],
                 case["additive"], case["resolute"], case["init"], case["multi"], case.get("hist")]
@@ -610,6 +672,9 @@ def stats(cases, obs):
          "equal_costs": 0, "no_voters": 0, "nproj_hist": {}, "nvoters_hist": {},
          "runs_with_tied_round": 0, "runs_with_tie_left_to_name_order": 0, "irresolute_with_several_outcomes": 0,
          "nothing_selected": 0, "everything_selected": 0, "float_valued_sat": 0, "sat_profile_passed": 0,
+         "refuse_tie_breaking": {"cases": 0, "raised": 0, "judged": 0, "judged_must_raise": 0,
+                                 "judged_must_not_raise": 0, "definition_says_no_tie_but_raised": 0,
+                                 "fast_path": 0, "general_resolute": 0, "irresolute": 0},
          "solver_reaching": 0, "stream": {}, "init_form": {}, "init_form_with_nonempty_init": {},
          "one_shot_iterable_nonempty_init_by_scheme": {"fast": 0, "general_resolute": 0, "irresolute": 0},
          "default_tie_breaking": 0, "positional_arguments": 0, "analytics": 0,
@@ -652,6 +717,20 @@ def stats(cases, obs):
         d["sat_profile_passed"] += c["via"] == "profile"
         d["solver_reaching"] += bool(c.get("solver"))
         inc(d["stream"], c.get("stream", "corpus"))
+        if c["tb"] == "refuse":
+            RF = d["refuse_tie_breaking"]
+            RF["cases"] += 1
+            RF["raised"] += bool(o.get("raised"))
+            RF["irresolute" if not c["resolute"] else ("fast_path" if ea else "general_resolute")] += 1
+            try:
+                must, judged = _refuse_view(c, o)
+                judged = judged or REFUSE_JUDGE_EVERYWHERE
+                RF["judged"] += judged
+                RF["judged_must_raise"] += bool(judged and must)
+                RF["judged_must_not_raise"] += bool(judged and not must)
+                RF["definition_says_no_tie_but_raised"] += bool((not must) and o.get("raised"))
+            except Exception:
+                pass
         st_ = c.get("style", {})
         inc(d["init_form"], st_.get("init_form", "list"))
         if c["init"]:
